@@ -24,6 +24,8 @@ func c01(c *Ctx) {
 	c01R1(c, "R1")
 	sQuorum(c, "R2/S-QUORUM")
 	c01R3(c, "R3")
+	sDurableElect(c, "R3/S-DURABLE")
+	c06R5(c, "R3/S-DURABLE")
 	sStale(c, "R4/S-STALE")
 	sHigher(c, "R4/S-HIGHER")
 	c01R5(c, "R5")
